@@ -66,8 +66,8 @@ def dispatchSem (C : WC) (s : OSt) : Except Exc Val × OSt :=
   | (.error e, ms1) => if C.E.reraiseLegacy then (.error e, ms1.s) else (.ok .none, ms1.s)
   | (r, ms1) => (r, ms1.s)
 
-theorem dispatch_is_source (C : WC) (s : OSt) :
-    Model.PyW.run C WrapProg.TraitChangeNotifyWrapper_dispatch [.self, .handler, .args] s
+theorem dispatch_is_source (C : WC) (s : OSt) (sels : List Sel) (o n : Id) :
+    Model.PyW.run C WrapProg.TraitChangeNotifyWrapper_dispatch [.self, .handler, .tuple sels o n] s
       = (match invoke C { vars := fun _ => .stuck, s := s } with | (r, ms1) => (r, ms1.s)) := by
   generalize hs0 : s = s0
   handler_cases [WrapProg.TraitChangeNotifyWrapper_dispatch]
@@ -92,18 +92,19 @@ theorem notify_function_is_source (C : WC) (s : OSt) (hk : C.n.kind = .dynamic) 
       generalize hs0 : s.ensureItrait = s0 at hself
       handler_cases [WrapProg.TraitChangeNotifyWrapper_notify_function_listener, changeAccepted, ho, hk, hc, hs0, hself]
 
-theorem notify_method_is_source (C : WC) (s : OSt) (hk : C.n.kind = .dynamic) (k : Nat) (hn : C.wrapName = some k) :
+theorem notify_method_is_source (C : WC) (s : OSt) (hk : C.n.kind = .dynamic) (k : Nat) (hn : C.wrapName = some k)
+    (ha : C.ownerAlive = true) :
     Model.PyW.run C WrapProg.TraitChangeNotifyWrapper_notify_method_listener
         [.self, .object, .name, .id C.old, .id C.new] s
       = ofWrapper (callWrapper C.E C.t C.n C.loc C.old C.new s) := by
   unfold callWrapper
   by_cases ho : C.old = uninit
-  · pw_exec [WrapProg.TraitChangeNotifyWrapper_notify_method_listener, changeAccepted, ho, hk, hn]
+  · pw_exec [WrapProg.TraitChangeNotifyWrapper_notify_method_listener, changeAccepted, ho, hk, hn, ha]
   · cases hc : changeAcceptedCmp C.E.cmp C.t.kind C.t.flags C.old C.new
-    · pw_exec [WrapProg.TraitChangeNotifyWrapper_notify_method_listener, changeAccepted, ho, hk, hc, hn]
+    · pw_exec [WrapProg.TraitChangeNotifyWrapper_notify_method_listener, changeAccepted, ho, hk, hc, hn, ha]
     · have hself : s.ensureItrait.self = s.self := ensureItrait_self s
       generalize hs0 : s.ensureItrait = s0 at hself
-      handler_cases [WrapProg.TraitChangeNotifyWrapper_notify_method_listener, changeAccepted, ho, hk, hc, hs0, hself, hn]
+      handler_cases [WrapProg.TraitChangeNotifyWrapper_notify_method_listener, changeAccepted, ho, hk, hc, hs0, hself, hn, ha]
 
 theorem dynamic_call_is_source (C : WC) (s : OSt) :
     Model.PyW.run C WrapProg.TraitChangeNotifyWrapper_call [.self, .object, .name, .id C.old, .id C.new] s
@@ -150,4 +151,32 @@ theorem equals_is_source (C : WC) (s : OSt) :
         simp [eq_comm, hk]
     · by_cases hk : k = k' <;> by_cases hoo : o = o' <;>
         pw_exec [WrapProg.TraitChangeNotifyWrapper_equals, candVal, hc, hn, ho, hk, hoo] <;> simp_all [eq_comm]
+
+/-- The dead-owner path of a method wrapper: the weak reference no longer refers to the listener object — nobody is
+called (the log is untouched), nothing is raised; only `_change_accepted`'s look-up of the instance trait happened. -/
+theorem notify_method_dead (C : WC) (s : OSt) (hd : C.ownerAlive = false) :
+    Model.PyW.run C WrapProg.TraitChangeNotifyWrapper_notify_method_listener
+        [.self, .object, .name, .id C.old, .id C.new] s
+      = (.ok .none, if C.old = uninit then s else s.ensureItrait) := by
+  by_cases ho : C.old = uninit
+  · pw_exec [WrapProg.TraitChangeNotifyWrapper_notify_method_listener, changeAccepted, ho, hd]
+  · cases hc : changeAcceptedCmp C.E.cmp C.t.kind C.t.flags C.old C.new <;>
+    pw_exec [WrapProg.TraitChangeNotifyWrapper_notify_method_listener, changeAccepted, ho, hd, hc]
+
+/-- `listener_deleted` (the weak reference's callback): the wrapper takes itself out of the notifier list it sits in;
+nothing is raised (a wrapper that is no longer there is not an error). -/
+theorem listener_deleted_is_source (C : WC) (s : OSt) :
+    Model.PyW.run C WrapProg.TraitChangeNotifyWrapper_listener_deleted [.self, .weak] s
+      = (.ok .none, s.removeSelf C.n C.loc) := by
+  pw_exec [WrapProg.TraitChangeNotifyWrapper_listener_deleted]
+
+/-- what a handler of the given arity receives from each wrapper class: the source's tables -/
+theorem argument_transforms_are_source :
+    WrapProg.TraitChangeNotifyWrapper_argument_transforms
+      = [(0, []), (1, [.new]), (2, [.name, .new]), (3, [.obj, .name, .new]), (4, [.obj, .name, .old, .new])]
+    ∧ WrapProg.StaticTraitChangeNotifyWrapper_argument_transforms
+      = [(0, []), (1, [.obj]), (2, [.obj, .new]), (3, [.obj, .old, .new]), (4, [.obj, .name, .old, .new])]
+    ∧ WrapProg.StaticAnytraitChangeNotifyWrapper_argument_transforms
+      = [(0, []), (1, [.obj]), (2, [.obj, .name]), (3, [.obj, .name, .new]), (4, [.obj, .name, .old, .new])] := by
+  decide
 end TraitsVerif.Lemmas.WrapSource
